@@ -9,6 +9,18 @@ BASE = ("Trusted: Coq 8.16.1 kernel (vm_compute; no native_compute), no axioms (
 TECH = "machine-checked proof (Coq) + translator-regenerated tables + model/implementation correspondence"
 
 CLAIMS = {
+    "C13": ("Coq theorems: (walk) for every list of entries, handler list, mode and single fault, a name that is neither a matching non-temp-named entry nor its hidden temp name is bound "
+            "after the walk exactly as before; entries that are temp-named, not regular (symlinks, directories, FIFOs, sockets) or match no enabled handler cause no operation at all; (run) "
+            "one handler on one file leaves every other name and every other pre-existing inode unchanged, for any link count, result and fault; (--brp) unset/empty/root build roots are refused "
+            "and a passing check means every argument lies component-wise under the build root. Tied to the code by whole-tree snapshots of decoy-laden trees x argument sets x "
+            "{real, --check, -j3}, by replaying the implementation's visiting order through the model walk (counters and final tree), and by a strace'd --brp matrix (abort before any open).",
+            "Modelled, not verified: walkdir's enumeration (taken from the implementation's -v log), Path::components/extension as modelled in Walk.v/Brp.v; inode-level frame across a whole walk is "
+            "proved per run, composed by the snapshot oracle.", "DESIGN.md section 5-C13"),
+    "C14": ("Coq theorems: Stats::add_one (arms regenerated from mod.rs) partitions processed into unchanged + replaced + rewritten + unsupported + errors for any result sequence, sums of worker "
+            "statistics keep the partition, one result is counted per regular entry; Replaced => the path names a new inode holding the handler's output; anything else => the single-link file "
+            "keeps its inode number and inode (content, mode, owner, mtime) - for all handlers, results and single faults. Tied to the code by comparing the CLI summary with a snapshot diff grouped "
+            "by inode over trees with dirty/clean/malformed/hard-linked/two-extension inodes x handler selections x {serial, -jN, --check}, and the serial run with the model walk.",
+            "Modelled, not verified: Rewritten (multi-link, in place) is covered by correspondence and oracle only; F15 (two handlers on one file) is a recorded finding.", "DESIGN.md section 5-C14"),
     "C18": ("Coq theorem over all byte strings about a model of PycParser::from_file + set_zero_mtime whose magic-number table, offsets and the PEP 552 guard are regenerated from pyc.rs: "
             "whenever the handler returns normally the header was recognised, the timestamp field (offset 4 for 8/12-byte headers, 8 for 16-byte ones) lies inside it, length is unchanged, "
             "no byte outside the field changes, hash-based files are never modified, 'modified' iff timestamp-based with a non-zero field, the field is 0 afterwards; idempotent; "
